@@ -40,6 +40,10 @@ def cases(draw):
             im["blank_header"] = sorted(blank)
         if draw(st.booleans()):
             im["random_times"] = True
+        if draw(st.integers(0, 3)) == 0:
+            im["drift"] = draw(st.integers(0, 10**6))  # slowly varying columns
+        if draw(st.integers(0, 3)) == 0:
+            im["cross_midnight"] = True
         images.append(im)
     return {
         "level": level,
@@ -49,6 +53,8 @@ def cases(draw):
         "rpc": draw(st.sampled_from([1, 2, 3, 7, 1024])),
         # the judged tree is the one returned by an open that also writes the index cache
         "create_cache": draw(st.sampled_from([False, False, False, True])),
+        # ... and the tree read back through that cache is judged too
+        "via_cache": draw(st.booleans()),
         "policy": draw(st.sampled_from(["decoy", "decoy", "blank"])),
         "vseed": draw(st.integers(0, 2**32 - 1)),
     }
@@ -87,6 +93,18 @@ def run_case(case):
             flat, err = harness.guard(harness.flatten, tree)
             if err is not None:
                 return [harness.disc("exception", "flatten", "loadable tree", harness.exc_text(err))]
+            if case.get("create_cache") and case.get("via_cache"):
+                cached, err = harness.guard(harness.open_tree, prod.url, records_per_chunk=case["rpc"], use_cache=True)
+                if err is not None:
+                    return [harness.disc("exception", "open_alos2 through the cache just written", "a tree", harness.exc_text(err))]
+                cflat, err = harness.guard(harness.flatten, cached)
+                if err is not None:
+                    return [harness.disc("exception", "flatten (cached tree)", "a tree", harness.exc_text(err))]
+                for iinfo, gname in zip(info["images"], common.group_names(spec)):
+                    for d in model.check_image_group(iinfo, gname, cflat, harness.disc):
+                        d["where"] = d["where"]
+                        d.setdefault("context", {})["through"] = "index cache"
+                        out.append(d)
         finally:
             if case.get("create_cache"):
                 common.drop_user_cache(prod.url, info["names"]["sar_imagery"])
